@@ -43,4 +43,7 @@ def translated : List String := ["GetRand_seedBT_1(p_BlockTimestamp)", "GetRand_
 /-- every rejecting guard of the translated functions, in source order -/
 def guards : List String := ["Keeper.RequestRandom: blockInterval > uint64(math.MaxInt64-currentHeight)", "Keeper.RequestRandom: requestContextID, err := k.RequestService(ctx, consumer, serviceFeeCap); err != nil", "Keeper.RequestService: provider, err := sdk.AccAddressFromBech32(bindings[prng.Intn(len(bindings))].Provider); err != nil", "msgServer.RequestRandom: request, err := m.Keeper.RequestRandom( ctx, consumer, msg.BlockInterval, msg.Oracle, msg.ServiceFeeCap, ); err != nil"]
 
+/-- every statement of the translated functions executed for its effect, with its nesting depth, in source order -/
+def effects : List String := ["BeginBlocker: d0 rqIterator.Next()", "BeginBlocker: d1 k.GetCdc().MustUnmarshal(rqIterator.Value(), &request)", "BeginBlocker: d3 k.SetOracleRandRequest(ctx, serviceContextID, request)", "BeginBlocker: d2 k.DequeueRandomRequest(ctx, lastBlockHeight, reqID)", "BeginBlocker: d2 k.SetRandom(ctx, reqID, types.NewRandom(request.TxHash, lastBlockHeight, random.FloatString(types.RandPrec)))", "BeginBlocker: d2 k.DequeueRandomRequest(ctx, lastBlockHeight, reqID)", "Keeper.SetRandom: d0 store.Set(types.KeyRandom(reqID), bz)", "Keeper.EnqueueRandomRequest: d0 store.Set(types.KeyRandomRequestQueue(height, reqID), bz)", "Keeper.DequeueRandomRequest: d0 store.Delete(types.KeyRandomRequestQueue(height, reqID))", "Keeper.SetOracleRandRequest: d0 store.Set(types.KeyOracleRandomRequest(requestContextID), bz)", "Keeper.DeleteOracleRandRequest: d0 store.Delete(types.KeyOracleRandomRequest(requestContextID))", "Keeper.RequestRandom: d0 k.EnqueueRandomRequest(ctx, destHeight, reqID, request)", "Keeper.RequestService: d0 iterator.Next()", "Keeper.RequestService: d1 k.cdc.MustUnmarshal(iterator.Value(), &binding)", "Keeper.HandlerResponse: d1 k.DeleteOracleRandRequest(ctx, requestContextID)", "Keeper.HandlerResponse: d1 k.DeleteOracleRandRequest(ctx, requestContextID)", "Keeper.HandlerResponse: d1 k.DeleteOracleRandRequest(ctx, requestContextID)", "Keeper.HandlerResponse: d1 k.DeleteOracleRandRequest(ctx, requestContextID)", "Keeper.HandlerResponse: d0 k.SetRandom( ctx, reqID, types.NewRandom(request.TxHash, lastBlockHeight, random.FloatString(types.RandPrec)), )", "Keeper.HandlerResponse: d0 k.DeleteOracleRandRequest(ctx, requestContextID)", "Keeper.HandlerStateChanged: d0 k.DeleteOracleRandRequest(ctx, requestContextID)"]
+
 end Irismod.Gen.PureRandom
